@@ -55,7 +55,7 @@ def gen(tier, seed):
             if r < 0.45 and toks:
                 toks = mutate(rng, toks)
             texts.append(toks)
-        yield {'decls': [d.to_json() for d in decls], 'flags': F_NOCASE if nocase else 0, 'texts': texts, 'style': rng.choice(['plain', 'mixed']),
+        yield {'decls': [d.to_json() for d in decls], 'flags': F_NOCASE if nocase else 0, 'texts': texts, 'style': rng.choice(['plain', 'mixed', 'mixed', 'nonl']),
                'entry': rng.choice(['buf', 'buf', 'fp', 'file'])}
 
 
@@ -160,6 +160,8 @@ def render(spec, k):
     toks = spec['texts'][k]
     if spec['style'] == 'plain':
         return ' '.join(t[1] for t in toks) + '\n'
+    if spec['style'] == 'nonl':
+        return ' '.join(t[1] for t in toks)          # nothing before the first token, nothing after the last
     rng = core.seeded_rng(zlib.crc32(repr(toks).encode()), 'layout')
     return G.render(toks, rng, 'mixed')
 
